@@ -52,6 +52,23 @@ def thread_strategy():
     })
 
 
+def catchup_strategy():
+    """the catch-up phase of a pack at file-operation granularity: the packer copies a transaction larger than a file
+    buffer that lies after the pack time, gives the commit lock away; a committer gets in (segment 1: after the n-th
+    release of a storage lock), runs for n2 file operations, the packer for n3, then the committer again ..."""
+    from vlib import threadprog
+    seg = st.tuples(st.tuples(st.just('release:FileStorage'), st.integers(1, 10), st.just(0)).map(list),
+                    st.lists(st.tuples(st.just('file'), st.integers(1, 30), st.just(0)).map(list), min_size=2, max_size=4)).map(
+        lambda t: [t[0]] + t[1])
+    return st.fixed_dictionaries({
+        'mode': st.just('threads'),
+        'programs': st.tuples(st.sampled_from(threadprog.PLAIN)).map(lambda t: [['committer', [['write', t[0]], ['commit']]]]),
+        'schedule': seg.map(lambda sg: {'segments': sg}),
+        'second_packer': st.just(False), 'pack_back': st.just(1.5), 'lines': st.just(False), 'warm': st.booleans(),
+        'big_prehistory': st.just(True),
+    })
+
+
 def execute_threads(case):
     """one packer with committers and readers under the deterministic scheduler"""
     import sys
@@ -63,7 +80,7 @@ def execute_threads(case):
     clock.install()
     clock.reset()
     d = newdir()
-    tr = threadprog.ThreadRun('fs', d, prehistory=2, warm=case.get('warm', True))
+    tr = threadprog.ThreadRun('fs', d, prehistory=2, warm=case.get('warm', True), big_prehistory=case.get('big_prehistory', False))
     try:
         threads = [('packer', tr.packer('packer', case['pack_back']))]
         if case['second_packer']:
@@ -154,7 +171,7 @@ def execute_threads(case):
 
 
 def strategy(tier):
-    return st.one_of(_enum_strategy(tier), _enum_strategy(tier), thread_strategy())
+    return st.one_of(_enum_strategy(tier), _enum_strategy(tier), thread_strategy(), catchup_strategy())
 
 
 def _enum_strategy(tier):
